@@ -30,7 +30,114 @@ def run(prog, an, rep):
     rep.run_rules(prog, an, [gates_dominate_effects, gate_effects,
                              early_checks_rules, class_flags,
                              dependencies_rules, option_handler,
-                             addressed_comments])
+                             addressed_comments, slash_declarations])
+
+
+def _alphabet(pattern):
+    """ASCII characters a match of `pattern` can contain."""
+    import re
+    import re._parser as sp
+    out = set()
+
+    def cls(items, negate=False):
+        inside = set()
+        for op, av in items:
+            if op is sp.LITERAL:
+                inside.add(chr(av)) if av < 128 else None
+            elif op is sp.RANGE:
+                inside |= {chr(k) for k in range(av[0], min(av[1], 127) + 1)}
+            elif op is sp.CATEGORY:
+                name = str(av).rpartition('_')[2].lower()
+                neg = 'NOT' in str(av)
+                rx = {'digit': r'\d', 'space': r'\s', 'word': r'\w'}.get(name)
+                if rx is None:
+                    return {chr(k) for k in range(128)}
+                hit = {chr(k) for k in range(128)
+                       if re.fullmatch(rx, chr(k), re.ASCII)}
+                inside |= ({chr(k) for k in range(128)} - hit) if neg \
+                    else hit
+            elif op is sp.NEGATE:
+                negate = True
+        return ({chr(k) for k in range(128)} - inside) if negate else inside
+
+    def walk(seq):
+        for op, av in seq:
+            if op is sp.LITERAL:
+                if av < 128:
+                    out.add(chr(av))
+            elif op is sp.NOT_LITERAL or op is sp.ANY:
+                out.update(chr(k) for k in range(128))
+            elif op is sp.IN:
+                out.update(cls(av))
+            elif op is sp.CATEGORY:
+                out.update(cls([(op, av)]))
+            elif op is sp.BRANCH:
+                for alt in av[1]:
+                    walk(alt)
+            elif op is sp.SUBPATTERN:
+                walk(av[3])
+            elif op in (sp.MAX_REPEAT, sp.MIN_REPEAT,
+                        getattr(sp, 'POSSESSIVE_REPEAT', None)):
+                walk(av[2])
+            elif op in (sp.ASSERT, sp.ASSERT_NOT):
+                pass
+            elif op is getattr(sp, 'ATOMIC_GROUP', None):
+                walk(av)
+            elif op is sp.GROUPREF_EXISTS:
+                walk(av[1])
+                if av[2] is not None:
+                    walk(av[2])
+    walk(sp.parse(pattern))
+    return out
+
+
+def slash_declarations(prog, an, rep):
+    """/wait, /after_pull_request=N: whatever the slash pattern accepts is
+    cut into its keywords -- every character it lets through is a keyword
+    character, white space, or blanked by the clean-up before the keywords
+    are read (a declaration that is accepted but not understood is dropped
+    without a word, and the hold with it)."""
+    from ..rules import regex_match, substitute_locals
+    R = 'C12.LNG.slash-declaration'
+    f = need_func(an, 'bert_e.reactor.Reactor.handle_options')
+
+    def text(e):
+        try:
+            v = const_value(substitute_locals(f, e))
+        except AnalysisError:
+            return None
+        return v if isinstance(v, str) else None
+    matches, subs = [], []
+    for x in walk_local(f.node, include_root=False):
+        m = regex_match(f, x, ('match', 'fullmatch', 'search'))
+        if m is not None and text(m[0]) is not None:
+            matches.append((x, text(m[0])))
+        sb = regex_match(f, x, ('sub',))
+        if sb is not None and text(sb[0]) is not None:
+            subs.append((x, text(sb[0]), x.args[-2] if dotted(x.func) !=
+                         're.sub' else x.args[1]))
+    slash = [(x, p) for x, p in matches if p.lstrip('^').startswith('/')]
+    words = [(x, p) for x, p in matches if 'keywords' in p]
+    rep.floor('C12 slash / keywords / clean-up patterns in handle_options',
+              min(len(slash), len(words), len(subs)), 1)
+    blanked = set()
+    for x, p, repl in subs:
+        if is_const_space(repl):
+            blanked |= _alphabet(p)
+    for x, p in slash:
+        for y, kw_ in words:
+            rep.evaluated()
+            lost = _alphabet(p) - _alphabet(kw_) - blanked
+            rep.check(not lost, R, f.qname + ': a slash declaration is cut '
+                      'into keywords', f.where(x), 'the slash form accepts '
+                      '%s, which is neither blanked before the keywords are '
+                      'read nor a keyword character: such a declaration is '
+                      'silently ignored' % sorted(lost))
+
+
+def is_const_space(e):
+    return isinstance(e, ast.Constant) and isinstance(e.value, str) and \
+        e.value != '' and e.value.strip() == ''
 
 
 def addressed_comments(prog, an, rep):
